@@ -461,8 +461,18 @@ pub fn gen_c06_cuckoo_sparse(ctx: &mut Ctx, ncases: u64) {
         let cfg = vec![c.bs, c.nb, c.lf];
         let fpmod = (1u64 << lf) - 1;
         let mut univ: Vec<u64> = vec![];
+        // a third of the identity-hasher cases: fingerprints whose low bits are all zero (the part of a slot that
+        // lies in the previous 64-bit word of the packed table is then zero although the slot is used)
+        let lowzero = small && ctx.rng.chance(1, 2);
         for _ in 0..12 {
-            univ.push(if small { ctx.rng.below(4).wrapping_add(fpmod.wrapping_mul(ctx.rng.below(4000))) } else { ctx.rng.next() });
+            univ.push(if lowzero {
+                let z = ctx.rng.range(lf / 2, lf - 1);
+                let hi = 1 + ctx.rng.below((1u64 << (lf - z)) - 1);
+                ((hi << z) - 1).wrapping_add(fpmod.wrapping_mul(ctx.rng.below(4000)))
+            } else if small { ctx.rng.below(4).wrapping_add(fpmod.wrapping_mul(ctx.rng.below(4000))) } else { ctx.rng.next() });
+        }
+        if lowzero {
+            ctx.stat("c06.cuckoo.sparse.lowzero", 1);
         }
         for id in 1..=4 {
             fam_new(ctx, f, id, &cfg);
